@@ -496,3 +496,6 @@ def run(ctx):
                     fail="WatchexecFilterer::new no longer propagates a failure of dirs::ignores(): it carries on without the list that also holds the explicit --ignore-file entries")
     except Skip:
         pass
+
+    ctx.rule("R12.10", "whether a global ignore file's directory pattern applies does not depend on which other sources are loaded: `path or any parent` matching is chosen on the probed path")
+    ctx.borrow("C03", ["R03.9"], "R12.10", "matcher selection in match_path")
